@@ -17,6 +17,8 @@ mod c13;
 mod c14;
 mod c15;
 mod c16;
+mod c17;
+mod e4;
 mod e2;
 mod c19;
 mod e1;
@@ -65,6 +67,7 @@ fn main() {
         "C14" => c14::run(tier, replay),
         "C15" => c15::run(tier, replay),
         "C16" => c16::run(tier, replay),
+        "C17" => c17::run(tier, replay),
         "C19" => c19::run(tier, replay),
         other => {
             eprintln!("unknown property id {}", other);
